@@ -110,6 +110,15 @@ def check(ctx: Ctx) -> str:
     gk = repo.func("bccache:BytecodeCache.get_cache_key")
     s = ast.unparse(gk.node)
     ctx.check("name.encode(" in s and "filename" in s, "key:inputs", "bccache:BytecodeCache.get_cache_key", "key inputs", "the cache key must depend on the template name and file name", gk.loc())
+    # the name is part of the key on every path: the compiled code embeds the template name
+    # (relative includes / imports resolve against it), so two names for one file are two entries
+    nm_rebinds = [a for a in ast.walk(gk.node) if isinstance(a, (ast.Assign, ast.AugAssign, ast.AnnAssign)) and any(isinstance(t_, ast.Name) and t_.id == "name" for t_ in (a.targets if isinstance(a, ast.Assign) else [a.target]))]
+    digest_in = [c.args[0] for c in astq.calls(gk.node) if astq.callee(c) in ("sha1", "hashlib.sha1", "sha256", "hashlib.sha256") and c.args]
+    name_first = bool(digest_in) and all(any(isinstance(x, ast.Name) and x.id == "name" for x in ast.walk(d_)) for d_ in digest_in)
+    upd = [c for c in astq.calls(gk.node) if (astq.attr_tail(c) == "update" or astq.callee(c) in ("sha1", "hashlib.sha1", "sha256", "hashlib.sha256")) and c.args and "filename" in ast.unparse(c.args[0])]
+    ctx.check(name_first and not nm_rebinds and bool(upd), "key:name-and-filename", "bccache:BytecodeCache.get_cache_key", "the key does not always contain the template name",
+              f"get_cache_key must hash the template name unconditionally and add the file name when there is one (name rebound {len(nm_rebinds)}x, digest inputs {[ast.unparse(d) for d in digest_in]}): with the name dropped, two template names resolving to one file share one bytecode entry, and the second renders with the first one's name (relative includes, `{{{{ self }}}}`)",
+              gk.loc(), detail={"digest_inputs": [ast.unparse(d) for d in digest_in], "name_rebound": len(nm_rebinds)})
     gs = repo.func("bccache:BytecodeCache.get_source_checksum")
     ctx.check("source.encode(" in ast.unparse(gs.node), "checksum:inputs", "bccache:BytecodeCache.get_source_checksum", "checksum inputs", "the checksum must be computed from the current source", gs.loc())
     # injectivity up to the hash: the digest input is the source parameter itself, encoded -
